@@ -1,97 +1,344 @@
-//! scratch: exploring the full-text index behaviour
+//! C17 correspondence: full-text search returns exactly the rows whose current text matches.
+//! Histories of creations, updates of one or both text fields (also to null), deletions and pulls on
+//! 1-3 real instances; after every step the touched peer dumps its rows and answers a search for
+//! every token of past and current texts.  One case per peer (its view of the history).
+//! Model: coq/model/Fts.v (run_C17); oracle: spec_C17 (substring test on the rows read back).
 #[path = "sync_common/mod.rs"]
 mod sync_common;
+use discret::verif_hooks::database::Error as DbError;
 use discret::verif_hooks::date_utils::verif_clock;
+use discret::verif_hooks::security::Uid;
 use discret::{Parameters, ParametersAdd};
+use serde_json::json;
+use std::collections::{BTreeSet, HashMap};
 use sync_common::*;
+use vharness::common::*;
 
-async fn search(net: &Net, p: usize, w: &str) -> String {
-    let mut pa = Parameters::default();
-    pa.add("w", w.to_string()).unwrap();
-    match net.peers[p].db.query("query { ns.Doc(search($w)) { id a b } }", Some(pa)).await {
-        Ok(s) => { let v: serde_json::Value = serde_json::from_str(&s).unwrap(); format!("{}", v["ns.Doc"]) }
-        Err(e) => format!("ERR {}", e),
+#[derive(Clone, Debug, PartialEq)]
+struct Row { id: u64, rowid: i64, mdate: i64, a: String, b: Option<String> }
+
+fn gtext(s: &str) -> String { glist(&s.bytes().map(|c| gn(c as u64)).collect::<Vec<_>>()) }
+fn gotext(s: &Option<String>) -> String { match s { Some(t) => format!("(Some {})", gtext(t)), None => "None".to_string() } }
+fn push_text(obs: &mut Vec<i64>, s: &str) { obs.push(s.len() as i64); for c in s.bytes() { obs.push(c as i64); } }
+
+struct View { base_rowid: i64, n0: i64, t0: i64, ops: Vec<String>, obs: Vec<i64>, checks: usize, mism: usize, errs: usize, synced: usize }
+
+struct Hist<'a> {
+    net: &'a Net,
+    room: Uid,
+    n: usize,
+    ids: Vec<Uid>,
+    views: Vec<View>,
+    words: BTreeSet<String>,
+    t: i64,
+    seen_max: &'a mut Vec<i64>,
+}
+
+impl<'a> Hist<'a> {
+    async fn new(net: &'a Net, n: usize, seen_max: &'a mut Vec<i64>) -> Hist<'a> {
+        let room = net.create_room(T0 - 30 * DAY, &["ns.Doc", "ns.Plain"]).await;
+        let mut views = vec![];
+        for p in 0..n {
+            // fence: no new row of this history may take a storage slot used in an earlier history
+            verif_clock::set(T0);
+            while net.max_rowid(p).await < seen_max[p] {
+                net.peers[p].db.mutate_raw("mutate { ns.Plain{ a:\"fence\" } }", None).await.expect("fence");
+            }
+            let base_rowid = net.max_rowid(p).await;
+            let (n0, t0) = net.fts_totals(p).await;
+            views.push(View { base_rowid, n0, t0, ops: vec![], obs: vec![], checks: 0, mism: 0, errs: 0, synced: 0 });
+        }
+        Hist { net, room, n, ids: vec![], views, words: BTreeSet::new(), t: T0 + 1000, seen_max }
+    }
+    fn index_of(&self, id: &Uid) -> Option<u64> { self.ids.iter().position(|u| u == id).map(|i| i as u64 + 1) }
+
+    async fn rows(&mut self, p: usize) -> Vec<Row> {
+        let base = self.views[p].base_rowid;
+        let mut out = vec![];
+        for r in self.net.dump_nodes(p, self.room).await {
+            if r.rowid > self.seen_max[p] { self.seen_max[p] = r.rowid; }
+            let v: serde_json::Value = serde_json::from_str(r.json.as_deref().unwrap_or("{}")).unwrap();
+            let o = v.as_object().unwrap();
+            let mut keys: Vec<&String> = o.keys().collect();
+            keys.sort();
+            let a = o[keys[0]].as_str().unwrap_or("").to_string();
+            let b = keys.get(1).and_then(|k| o[*k].as_str()).map(|s| s.to_string());
+            out.push(Row { id: self.index_of(&r.id).expect("foreign row"), rowid: r.rowid - base, mdate: r.mdate, a, b });
+        }
+        out.sort_by_key(|r| r.id);
+        out
+    }
+
+    async fn search(&self, p: usize, w: &str) -> Result<Vec<u64>, String> {
+        let mut pa = Parameters::default();
+        pa.add("w", w.to_string()).unwrap();
+        match self.net.peers[p].db.query("query { ns.Doc(search($w)) { id } }", Some(pa)).await {
+            Ok(s) => {
+                let v: serde_json::Value = serde_json::from_str(&s).unwrap();
+                let mut ids = vec![];
+                for e in v["ns.Doc"].as_array().unwrap() {
+                    let uid = discret::verif_hooks::security::uid_decode(e["id"].as_str().unwrap()).unwrap();
+                    if let Some(i) = self.index_of(&uid) { ids.push(i); } // rows of earlier histories are ignored
+                }
+                ids.sort();
+                Ok(ids)
+            }
+            Err(e) => Err(e.to_string()),
+        }
+    }
+
+    /// dump + search every known word on peer p
+    async fn check(&mut self, p: usize, rng: &mut Rng) {
+        let rows = self.rows(p).await;
+        // at most 10 words: the most recent tokens, a few older ones, one two-letter word
+        let all: Vec<String> = self.words.iter().cloned().collect();
+        let mut ws: Vec<String> = vec![];
+        for _ in 0..9 { if !all.is_empty() { let w = rng.pick(&all).clone(); if !ws.contains(&w) { ws.push(w); } } }
+        ws.push("ab".to_string());
+        let mut block: Vec<i64> = vec![rows.len() as i64];
+        for r in &rows {
+            block.push(r.id as i64); block.push(r.rowid);
+            push_text(&mut block, &r.a);
+            match &r.b { Some(t) => { block.push(1); push_text(&mut block, t); } None => block.push(0) }
+        }
+        for w in &ws {
+            match self.search(p, w).await {
+                Ok(ids) => {
+                    let want: Vec<u64> = rows.iter().filter(|r| r.a.contains(w.as_str()) || r.b.as_ref().map(|t| t.contains(w.as_str())).unwrap_or(false)).map(|r| r.id).collect();
+                    if w.len() >= 3 && ids != want { self.views[p].mism += 1; }
+                    block.push(ids.len() as i64);
+                    for i in ids { block.push(i as i64); }
+                }
+                Err(_) => { self.views[p].errs += 1; block.push(-1); }
+            }
+        }
+        let v = &mut self.views[p];
+        v.checks += 1;
+        v.ops.push(format!("FCheck {}", glist(&ws.iter().map(|w| gtext(w)).collect::<Vec<_>>())));
+        v.obs.extend(block);
+    }
+
+    fn note_text(&mut self, s: &str, rng: &mut Rng) {
+        for tok in s.split(' ') {
+            if tok.len() >= 3 { self.words.insert(tok.to_string()); }
+            if tok.len() >= 4 { let i = rng.below(tok.len() as u64 - 2) as usize; self.words.insert(tok[i..i + 3].to_string()); }
+        }
+    }
+
+    async fn create(&mut self, p: usize, a: &str, b: Option<&str>, rng: &mut Rng) -> u64 {
+        self.t += 1000;
+        verif_clock::set(self.t);
+        let mut pa = Parameters::default();
+        pa.add("room_id", b64(&self.room)).unwrap();
+        pa.add("a", a.to_string()).unwrap();
+        let q = match b { Some(t) => { pa.add("b", t.to_string()).unwrap(); "mutate { ns.Doc{ room_id:$room_id a:$a b:$b } }" } None => "mutate { ns.Doc{ room_id:$room_id a:$a } }" };
+        let r = self.net.peers[p].db.mutate_raw(q, Some(pa)).await.expect("create");
+        self.ids.push(r.mutate_entities[0].node_to_mutate.id);
+        let x = self.ids.len() as u64;
+        self.note_text(a, rng);
+        if let Some(t) = b { self.note_text(t, rng); }
+        self.net.barrier(p).await;
+        let v = &mut self.views[p];
+        v.ops.push(format!("FCreate {} {} {}", gn(x), gtext(a), gotext(&b.map(|s| s.to_string()))));
+        v.obs.push(1);
+        self.check(p, rng).await;
+        x
+    }
+
+    /// a: new value of field a (None = untouched); b: None = untouched, Some(None) = null, Some(Some(t)) = t
+    async fn update(&mut self, p: usize, x: u64, a: Option<&str>, b: Option<Option<&str>>, rng: &mut Rng) -> i64 {
+        self.t += 1000;
+        verif_clock::set(self.t);
+        let mut pa = Parameters::default();
+        pa.add("id", b64(&self.ids[x as usize - 1])).unwrap();
+        let mut fields = String::new();
+        if let Some(t) = a { pa.add("a", t.to_string()).unwrap(); fields.push_str(" a:$a"); self.note_text(t, rng); }
+        match b { Some(Some(t)) => { pa.add("b", t.to_string()).unwrap(); fields.push_str(" b:$b"); self.note_text(t, rng); } Some(None) => fields.push_str(" b:null"), None => {} }
+        let q = format!("mutate {{ ns.Doc{{ id:$id{} }} }}", fields);
+        let flag = match self.net.peers[p].db.mutate_raw(&q, Some(pa)).await {
+            Ok(_) => 1,
+            Err(DbError::DatabaseWrite(_)) => 2,
+            Err(_) => 0,
+        };
+        self.net.barrier(p).await;
+        let ga = match a { Some(t) => format!("(Some {})", gtext(t)), None => "None".to_string() };
+        let gb = match b { Some(v) => format!("(Some {})", gotext(&v.map(|s| s.to_string()))), None => "None".to_string() };
+        let v = &mut self.views[p];
+        v.ops.push(format!("FUpdate {} {} {}", gn(x), ga, gb));
+        v.obs.push(flag);
+        self.check(p, rng).await;
+        flag
+    }
+
+    async fn delete(&mut self, p: usize, x: u64, rng: &mut Rng) {
+        self.t += 1000;
+        verif_clock::set(self.t);
+        let mut pa = Parameters::default();
+        pa.add("id", b64(&self.ids[x as usize - 1])).unwrap();
+        let r = self.net.peers[p].db.delete("delete { ns.Doc{ $id } }", Some(pa)).await.expect("delete");
+        self.net.barrier(p).await;
+        let v = &mut self.views[p];
+        v.ops.push(format!("FDelete {}", gn(x)));
+        v.obs.push(r.nodes.len() as i64);
+        self.check(p, rng).await;
+    }
+
+    async fn pull(&mut self, dst: usize, src: usize, rng: &mut Rng) {
+        self.t += 1000;
+        let before = self.rows(dst).await;
+        self.net.pull(dst, src, self.room, self.t).await;
+        let after = self.rows(dst).await;
+        let bmap: HashMap<u64, &Row> = before.iter().map(|r| (r.id, r)).collect();
+        let amap: HashMap<u64, &Row> = after.iter().map(|r| (r.id, r)).collect();
+        let mut dels: Vec<(i64, u64)> = vec![]; // (rowid, id)
+        let mut news: Vec<&Row> = vec![];
+        let mut ops: Vec<String> = vec![];
+        let put = |r: &Row| format!("FSyncPut {} {} {}", gn(r.id), gtext(&r.a), gotext(&r.b));
+        for r in &before {
+            match amap.get(&r.id) {
+                None => dels.push((r.rowid, r.id)),
+                Some(n) if n.rowid != r.rowid => { dels.push((r.rowid, r.id)); }
+                Some(n) if n.mdate != r.mdate || n.a != r.a || n.b != r.b => ops.push(put(n)),
+                _ => {}
+            }
+        }
+        for r in &after {
+            match bmap.get(&r.id) { None => news.push(r), Some(o) if o.rowid != r.rowid => news.push(r), _ => {} }
+        }
+        news.sort_by_key(|r| r.rowid);
+        dels.sort();
+        // order deletions and insertions so that max(rowid)+1 reproduces the slots the real pull assigned
+        let mut live: Vec<i64> = before.iter().map(|r| r.rowid).collect();
+        for r in news {
+            loop {
+                let next = live.iter().cloned().max().unwrap_or(0).max(0) + 1;
+                if next > r.rowid {
+                    match dels.pop() {
+                        Some((rid, id)) => { live.retain(|x| *x != rid); ops.push(format!("FSyncDel {}", gn(id))); }
+                        None => break,
+                    }
+                } else { break; }
+            }
+            live.push(r.rowid);
+            ops.push(put(r));
+        }
+        for (_, id) in dels { ops.push(format!("FSyncDel {}", gn(id))); }
+        self.views[dst].synced += ops.len();
+        self.views[dst].ops.extend(ops);
+        self.check(dst, rng).await;
+    }
+
+    fn cases(self, kind: &str, extra: serde_json::Value) -> Vec<Case> {
+        let mut out = vec![];
+        let n = self.n;
+        for (p, v) in self.views.into_iter().enumerate() {
+            out.push(Case { kind: kind.to_string(),
+                coq: format!("C17Case {} {} {}", gz(v.n0), gz(v.t0), glist(&v.ops)),
+                obs: v.obs,
+                meta: json!({"peer": p, "peers": n, "steps": v.ops.len(), "checks": v.checks, "rows_written_by_sync": v.synced,
+                             "checks_where_search_differs_from_substring_test": v.mism, "search_errors": v.errs, "extra": extra}) });
+        }
+        out
     }
 }
-async fn fts_state(net: &Net, p: usize) -> String {
-    net.sql(p, |c| {
-        let n: i64 = c.query_row("SELECT count(*) FROM _node_fts_docsize", [], |r| r.get(0)).unwrap();
-        let blk: Vec<u8> = c.query_row("SELECT block FROM _node_fts_data WHERE id=1", [], |r| r.get(0)).unwrap_or_default();
-        let ids: Vec<i64> = { let mut st = c.prepare("SELECT id FROM _node_fts_docsize ORDER BY id").unwrap(); let v = st.query_map([], |r| r.get(0)).unwrap().map(|x| x.unwrap()).collect(); v };
-        let mx: i64 = c.query_row("SELECT ifnull(max(rowid),0) FROM _node", [], |r| r.get(0)).unwrap();
-        format!("docsize rows {} ids {:?} averages {:?} max_rowid {}", n, ids, blk, mx)
-    }).await
+
+fn gen_token(rng: &mut Rng) -> String {
+    let len = 3 + rng.below(5);
+    (0..len).map(|_| *rng.pick(&['a', 'b', 'c', '1'])).collect()
+}
+fn gen_text(rng: &mut Rng) -> String {
+    let n = 1 + rng.below(3);
+    (0..n).map(|_| gen_token(rng)).collect::<Vec<_>>().join(" ")
+}
+
+/// K1: a row that arrives by synchronisation is not found on the receiver; K3: editing it locally
+async fn k1(net: &Net, rng: &mut Rng, seen: &mut Vec<i64>) -> Vec<Case> {
+    let mut h = Hist::new(net, 2, seen).await;
+    let x = h.create(0, "abcab 1ca1", None, rng).await;
+    h.pull(1, 0, rng).await;
+    h.update(0, x, Some("ccc1b abcab"), None, rng).await;
+    h.pull(1, 0, rng).await;
+    h.update(1, x, None, Some(Some("bb1bb")), rng).await;
+    h.cases("k1_sync", json!({}))
+}
+/// K2: delete the last row, create another: the new row answers for the deleted text
+async fn k2(net: &Net, rng: &mut Rng, seen: &mut Vec<i64>) -> Vec<Case> {
+    let mut h = Hist::new(net, 1, seen).await;
+    h.create(0, "aaa1 bcb", None, rng).await;
+    let y = h.create(0, "cabca 11ab", Some("b1b1b"), rng).await;
+    h.delete(0, y, rng).await;
+    h.create(0, "1c1c abca", None, rng).await;
+    let z = h.create(0, "bcbcb", None, rng).await;
+    h.delete(0, z, rng).await;
+    h.cases("k2_slot_reuse", json!({}))
+}
+/// K3: local edits of rows received by synchronisation drain the index totals until the edit is refused
+async fn k3(net: &Net, rng: &mut Rng, seen: &mut Vec<i64>) -> Vec<Case> {
+    let mut h = Hist::new(net, 2, seen).await;
+    let mut xs = vec![];
+    for i in 0..4 { xs.push(h.create(0, &format!("abcabcabcabcabcabcabcabcabcabcabcabcabcabcabcabc1{} aaaa", i), None, rng).await); }
+    h.pull(1, 0, rng).await;
+    let mut refused = 0;
+    for x in xs { if h.update(1, x, Some("cb1"), None, rng).await == 2 { refused += 1; } }
+    h.cases("k3_edit_synced", json!({"edits_refused": refused}))
+}
+/// local histories only (the class the theorem C17_local_ok covers when no slot is reused)
+async fn local(net: &Net, rng: &mut Rng, seen: &mut Vec<i64>) -> Vec<Case> {
+    let mut h = Hist::new(net, 1, seen).await;
+    let mut live: Vec<u64> = vec![];
+    for _ in 0..(6 + rng.below(8)) {
+        match rng.below(10) {
+            0..=3 => { let a = gen_text(rng); let b = if rng.chance(1, 3) { Some(gen_text(rng)) } else { None }; let x = h.create(0, &a, b.as_deref(), rng).await; live.push(x); }
+            4..=8 if !live.is_empty() => {
+                let x = *rng.pick(&live);
+                let a = if rng.chance(2, 3) { Some(gen_text(rng)) } else { None };
+                let bt = gen_text(rng);
+                let b = match rng.below(4) { 0 => Some(None), 1 => Some(Some(bt.as_str())), _ => if a.is_none() { Some(Some(bt.as_str())) } else { None } };
+                h.update(0, x, a.as_deref(), b, rng).await;
+            }
+            _ if live.len() > 1 => { let i = rng.below(live.len() as u64 - 1) as usize; let x = live.remove(i); h.delete(0, x, rng).await; } // never the newest row
+            _ => {}
+        }
+    }
+    h.cases("local", json!({}))
+}
+async fn random(net: &Net, rng: &mut Rng, seen: &mut Vec<i64>) -> Vec<Case> {
+    let n = 1 + rng.below(3) as usize;
+    let mut h = Hist::new(net, n, seen).await;
+    let mut live: Vec<Vec<u64>> = vec![vec![]; n];
+    for _ in 0..(6 + rng.below(10)) {
+        let p = rng.below(n as u64) as usize;
+        match rng.below(12) {
+            0..=3 => { let a = gen_text(rng); let b = if rng.chance(1, 3) { Some(gen_text(rng)) } else { None }; let x = h.create(p, &a, b.as_deref(), rng).await; live[p].push(x); }
+            4..=6 if !live[p].is_empty() => {
+                let x = *rng.pick(&live[p]);
+                let a = if rng.chance(2, 3) { Some(gen_text(rng)) } else { None };
+                let bt = gen_text(rng);
+                let b = match rng.below(4) { 0 => Some(None), 1 => Some(Some(bt.as_str())), _ => if a.is_none() { Some(Some(bt.as_str())) } else { None } };
+                h.update(p, x, a.as_deref(), b, rng).await;
+            }
+            7..=8 if !live[p].is_empty() => { let i = rng.below(live[p].len() as u64) as usize; let x = live[p][i]; h.delete(p, x, rng).await; }
+            _ if n > 1 => { let src = (p + 1 + rng.below(n as u64 - 1) as usize) % n; h.pull(p, src, rng).await; }
+            _ => {}
+        }
+        for q in 0..n { live[q] = h.rows(q).await.iter().map(|r| r.id).collect(); }
+    }
+    h.cases("random", json!({}))
 }
 
 #[tokio::main(flavor = "multi_thread")]
 async fn main() {
-    let net = Net::start(2, MODEL, work_root("C17")).await;
-    let room = net.create_room(T0 - DAY, &["ns.Doc", "ns.Plain"]).await;
-    println!("after room: {}", fts_state(&net, 0).await);
-    net.pull(1, 0, room, T0).await; net.pull(0, 1, room, T0).await; net.pull(1, 0, room, T0).await;
-    println!("after warmup p0: {}", fts_state(&net, 0).await);
-    println!("after warmup p1: {}", fts_state(&net, 1).await);
-    verif_clock::set(T0 + 1000);
-    let mk = |a: &str| { let mut p = Parameters::default(); p.add("room_id", b64(&room)).unwrap(); p.add("a", a.to_string()).unwrap(); p };
-    let r1 = net.peers[0].db.mutate_raw("mutate { ns.Doc{ room_id:$room_id a:$a } }", Some(mk("alpha beta"))).await.unwrap();
-    let x1 = r1.mutate_entities[0].node_to_mutate.id;
-    let r2 = net.peers[0].db.mutate_raw("mutate { ns.Doc{ room_id:$room_id a:$a } }", Some(mk("gamma delta"))).await.unwrap();
-    let x2 = r2.mutate_entities[0].node_to_mutate.id;
-    println!("x1 {} x2 {}", b64(&x1), b64(&x2));
-    println!("p0: {}", fts_state(&net, 0).await);
-    for w in ["alpha", "pha be", "gamma", "ab", "mma d", "zzz"] { println!("  search {} -> {}", w, search(&net, 0, w).await); }
-    let mut p = Parameters::default(); p.add("id", b64(&x2)).unwrap();
-    net.peers[0].db.delete("delete { ns.Doc{ $id } }", Some(p)).await.unwrap();
-    println!("deleted x2. p0: {}", fts_state(&net, 0).await);
-    for w in ["gamma"] { println!("  search {} -> {}", w, search(&net, 0, w).await); }
-    let r3 = net.peers[0].db.mutate_raw("mutate { ns.Doc{ room_id:$room_id a:$a } }", Some(mk("epsilon mma"))).await.unwrap();
-    let x3 = r3.mutate_entities[0].node_to_mutate.id;
-    println!("x3 {} p0: {}", b64(&x3), fts_state(&net, 0).await);
-    for w in ["gamma", "delta", "epsilon", "mma", "amma", "mma d", "silon mma"] { println!("  search {} -> {}", w, search(&net, 0, w).await); }
-    // update x3's text
-    let mut p = Parameters::default(); p.add("id", b64(&x3)).unwrap(); p.add("a", "epsilon".to_string()).unwrap();
-    let r = net.peers[0].db.mutate_raw("mutate { ns.Doc{ id:$id a:$a } }", Some(p)).await;
-    println!("update x3 -> {:?} ; {}", r.is_ok(), fts_state(&net, 0).await);
-    for w in ["gamma", "delta", "epsilon", "mma"] { println!("  search {} -> {}", w, search(&net, 0, w).await); }
-    // sync to peer 1
-    net.barrier(0).await;
-    let tr = net.pull(1, 0, room, T0 + 5000).await;
-    println!("pull 1<-0 requested {} ; p1: {}", tr.requested.len(), fts_state(&net, 1).await);
-    for w in ["alpha", "epsilon"] { println!("  p1 search {} -> {}", w, search(&net, 1, w).await); }
-    // K3: local update on peer 1 of a synchronised row
-    let mut p = Parameters::default(); p.add("id", b64(&x1)).unwrap(); p.add("b", "second field".to_string()).unwrap();
-    let r = net.peers[1].db.mutate_raw("mutate { ns.Doc{ id:$id b:$b } }", Some(p)).await;
-    println!("p1 update x1 -> {:?} ; {}", r.as_ref().map(|_| ()).map_err(|e| e.to_string()), fts_state(&net, 1).await);
-    for w in ["alpha", "second", "eld", "ta sec"] { println!("  p1 search {} -> {}", w, search(&net, 1, w).await); }
-    let mut p = Parameters::default(); p.add("id", b64(&x1)).unwrap(); p.add("b", "third".to_string()).unwrap();
-    let r = net.peers[1].db.mutate_raw("mutate { ns.Doc{ id:$id b:$b } }", Some(p)).await;
-    println!("p1 update x1 again -> {:?} ; {}", r.as_ref().map(|_| ()).map_err(|e| e.to_string()), fts_state(&net, 1).await);
-    for w in ["alpha", "second", "third"] { println!("  p1 search {} -> {}", w, search(&net, 1, w).await); }
-    // set b to null
-    let mut p = Parameters::default(); p.add("id", b64(&x1)).unwrap();
-    let r = net.peers[1].db.mutate_raw("mutate { ns.Doc{ id:$id b:null } }", Some(p)).await;
-    println!("p1 null b -> {:?}", r.as_ref().map(|_| ()).map_err(|e| e.to_string()));
-    for w in ["alpha", "third"] { println!("  p1 search {} -> {}", w, search(&net, 1, w).await); }
-    let n = net.dump_nodes(1, room).await; for r in n { println!("  p1 row {:?} {:?} rowid {}", b64(&r.id), r.json, r.rowid); }
-    // K3 drain: rows with long texts arrive by synchronisation on p1, then are edited locally
-    let mut ids = vec![];
-    for i in 0..4 {
-        let r = net.peers[0].db.mutate_raw("mutate { ns.Doc{ room_id:$room_id a:$a } }", Some(mk(&format!("long text number {} with many trigrams", i)))).await.unwrap();
-        ids.push(r.mutate_entities[0].node_to_mutate.id);
-    }
-    net.barrier(0).await;
-    let tr = net.pull(1, 0, room, T0 + 9000).await;
-    println!("pull 1<-0 requested {} ; p1: {}", tr.requested.len(), fts_state(&net, 1).await);
-    for (i, id) in ids.iter().enumerate() {
-        let mut p = Parameters::default(); p.add("id", b64(id)).unwrap(); p.add("a", "abc".to_string()).unwrap();
-        let r = net.peers[1].db.mutate_raw("mutate { ns.Doc{ id:$id a:$a } }", Some(p)).await;
-        println!("p1 edit {} -> {:?} ; {}", i, r.as_ref().map(|_| ()).map_err(|e| e.to_string()), fts_state(&net, 1).await);
-        println!("  p1 search abc -> {}", search(&net, 1, "abc").await);
-        println!("  p1 search alpha -> {}", search(&net, 1, "alpha").await);
-    }
-    let mut p = Parameters::default(); p.add("room_id", b64(&room)).unwrap(); p.add("a", "fresh row".to_string()).unwrap();
-    let r = net.peers[1].db.mutate_raw("mutate { ns.Doc{ room_id:$room_id a:$a } }", Some(p)).await;
-    println!("p1 create -> {:?} ; {}", r.as_ref().map(|_| ()).map_err(|e| e.to_string()), fts_state(&net, 1).await);
-    println!("  p1 search fresh -> {}", search(&net, 1, "fresh").await);
+    let mut out = Out::create();
+    let mut rng = Rng::from_env();
+    let net = Net::start(3, MODEL, work_root("C17")).await;
+    net.warmup().await;
+    let mut seen = vec![0i64; 3];
+    for p in 0..3 { seen[p] = net.max_rowid(p).await; }
+    for c in k1(&net, &mut rng.fork(), &mut seen).await { out.push(c); }
+    for c in k2(&net, &mut rng.fork(), &mut seen).await { out.push(c); }
+    for c in k3(&net, &mut rng.fork(), &mut seen).await { out.push(c); }
+    for _ in 0..scale(12, 200) { for c in local(&net, &mut rng.fork(), &mut seen).await { out.push(c); } }
+    for _ in 0..scale(24, 400) { for c in random(&net, &mut rng.fork(), &mut seen).await { out.push(c); } }
+    out.finish();
     net.cleanup();
 }
